@@ -138,7 +138,8 @@ func (t Tree) readDir(path string) ([]fs.DirEntry, error) {
 	return out, nil
 }
 
-var namePool = []string{"a", "b", "ab", "A", ".h", ".x", "x", "ax", "b.t", "é", "d", "dd", "sub", "a b", "*s", "B", ".a", "-"}
+var namePool = []string{"a", "b", "ab", "A", ".h", ".x", "x", "ax", "b.t", "é", "d", "dd", "sub", "a b", "*s", "B", ".a", "-",
+	"a\\b", "a\\bc", "x\\", "abc", "?q", "[z", "]z", "a*b", "a[b]", "d\\e"}
 
 func genTree(r *rand.Rand, rich bool) Tree {
 	var t Tree
@@ -231,6 +232,9 @@ func genOpts(r *rand.Rand, model bool) Opts {
 }
 
 var compsModel = []string{"*", "*", "?", "??", "a*", "*b", "?x", ".*", ".?", "*.*", "**", "**", "a", "d", "dd", "sub", ".", "", "x", "*a*", "d*", "a?", "a**", "*?"}
+// quoted parts holding each metacharacter alone (backslash included), next to unquoted wildcards
+var compsQuoted = []string{"'a\\b'*", "\"a\\\\b\"*", "*'\\'", "*'\\'*", "'d\\'?", "*'\\'[ef]", "'?'*", "*'?'*", "\"?\"q", "'['*", "*'['*", "']'*", "*\"]\"*", "'*'*", "a'*'?", "*'*'*",
+	"'a['*", "?'\\'*", "'x\\'", "*\"\\\\\"", "[ad]'\\'*"}
 var compsWide = []string{"[ab]*", "[!a]*", "[a-c]", "\\*", "\"*\"", "'?'x", "[[:upper:]]*", "[[:lower:]]", "@(a|b)", "!(a)", "*(a|b)", "+(d)", "..", "[.]h", "\"a b\"", "a\\ b", "*\"*\"s", "[*]s", "é", "?(a)b", "{a,b}*"}
 
 func genWord(r *rand.Rand, wide bool) string {
@@ -240,7 +244,9 @@ func genWord(r *rand.Rand, wide bool) string {
 	}
 	var cs []string
 	for i := 0; i < n; i++ {
-		if wide && r.IntN(3) == 0 {
+		if wide && r.IntN(4) == 0 {
+			cs = append(cs, hx.Pick(r, compsQuoted))
+		} else if wide && r.IntN(3) == 0 {
 			cs = append(cs, hx.Pick(r, compsWide))
 		} else {
 			cs = append(cs, hx.Pick(r, compsModel))
@@ -399,11 +405,29 @@ func compare(srcs, dirs []string, trees []string, classes []string, scratch stri
 	return rows
 }
 
+func hasUnquotedBackslash(w string) bool {
+	q := byte(0)
+	for i := 0; i < len(w); i++ {
+		c := w[i]
+		switch {
+		case q == 0 && (c == '\'' || c == '"'):
+			q = c
+		case q != 0 && c == q:
+			q = 0
+		case q == '"' && c == '\\':
+			i++ // an escape inside double quotes: still quoted text
+		case q == 0 && c == '\\':
+			return true
+		}
+	}
+	return false
+}
+
 // sampling domain of the search: classes of words on which the pinned tree is known to differ
 // from bash are kept out (each has a pinned witness)
 func inDomain(word string, o Opts, t Tree) bool {
-	if strings.Contains(word, "\\") {
-		return false // class unquoted_backslash_meta (an unquoted \* globs as *)
+	if hasUnquotedBackslash(word) {
+		return false // class unquoted_backslash_meta (an unquoted \* globs as *); quoted backslashes stay in
 	}
 	if strings.Contains(word, "[[:") {
 		return false // character classes: C17 (non-ASCII letters), class nocase_charclass
@@ -482,6 +506,7 @@ var witnesses = []struct{ Class, Script string }{
 	{"globstar_after_glob_component", "shopt -s globstar\nprintf '%s\\n' d*/**"},
 	{"globstar_repeated", "shopt -s globstar\nprintf '%s\\n' **/**"},
 	{"double_slash_kept", "printf '%s\\n' dir//*"},
+	{"", "shopt -s -o noglob\nprintf '%s\\n' a*\nshopt -u -o noglob\nprintf '%s\\n' a*\nset -f\nshopt -u -o noglob\nprintf '%s\\n' a*"},
 	{"globstar_symlink_after_prefix", "shopt -s globstar\nprintf '%s\\n' ./**/x"},
 	{"literal_component_dangling_symlink", "printf '%s\\n' */dangling"},
 	// repaired by fix: commits
@@ -491,6 +516,33 @@ var witnesses = []struct{ Class, Script string }{
 	{"", "shopt -s globstar\nprintf '%s\\n' **"},
 	{"", "shopt -s globstar\nprintf '%s\\n' **/ **/x ldir/**"},
 	{"", "shopt -s globstar dotglob\nprintf '%s\\n' **"},
+}
+
+// option toggles in every spelling, each immediately followed by a glob word in the same shell
+var toggles = []string{"set -f", "set +f", "set -o noglob", "set +o noglob", "shopt -s -o noglob", "shopt -u -o noglob",
+	"shopt -so noglob", "shopt -uo noglob",
+	"shopt -s nullglob", "shopt -u nullglob", "shopt -s dotglob", "shopt -u dotglob", "shopt -s globstar", "shopt -u globstar",
+	"shopt -s nocaseglob", "shopt -u nocaseglob", "shopt -s extglob", "shopt -u extglob"}
+
+func genSeq(r *rand.Rand, t Tree) string {
+	var sb strings.Builder
+	n := 2 + r.IntN(3)
+	for i := 0; i < n; i++ {
+		tg := hx.Pick(r, toggles)
+		if r.IntN(2) == 0 { // noglob spellings are the interesting ones
+			tg = toggles[r.IntN(8)]
+		}
+		var w string
+		for {
+			w = genWord(r, false)
+			// in the domain whatever the options are at that point
+			if inDomain(w, Opts{Star: true}, t) && inDomain(w, Opts{}, t) && !strings.Contains(w, "**") {
+				break
+			}
+		}
+		sb.WriteString(tg + "\nprintf '%s\\n' " + w + "\n")
+	}
+	return sb.String()
 }
 
 func main() {
@@ -538,6 +590,12 @@ func main() {
 					panic(err)
 				}
 				for k := 0; k < 40 && len(srcs) < o.N; k++ {
+					if k%5 == 4 {
+						srcs = append(srcs, genSeq(r, t))
+						dirs = append(dirs, root)
+						trees = append(trees, t.String())
+						continue
+					}
 					word, op := genWord(r, true), genOpts(r, false)
 					if o.Tier != "raw" && !inDomain(word, op, t) {
 						continue
